@@ -402,11 +402,9 @@ def execute(plan, ctx):
         try:
             with contextlib.redirect_stdout(sink):
                 ds.download_file(URL, path)
-        except (SimHTTPError, SimConnectionError, SimStreamReset, OSError, RuntimeError) as e:
-            raised = e
         except Exception as e:
-            import traceback
-            raise RealCodeError('download_file', e, True, traceback.format_exc(limit=8))
+            # "raises instead of returning": the statement does not fix the exception type
+            raised = e
         finally:
             pev.reset()
         if step > 0:
